@@ -207,7 +207,13 @@ class Ctx:
             val = z3.Const(key + '.val', z3.ArraySort(ks, vs))
             self.map_inputs[key] = (dom, val)
             return MapBox(SymMap(dom, val, ks, vs))
-        d = dict(self.model.get(key, {}))
+        if key in self.model:
+            d = dict(self.model[key])
+        else:
+            # no model (replay of a path on the contract's samples): one entry of its own per map, so that a value that
+            # leaks from one map into a result built from another one is visible
+            tag = ''.join(ch if ch.isalnum() else '_' for ch in key).upper()
+            d = {'SAMPLE_%s' % tag: 'value-of-%s' % key}
         self.inputs[key] = d
         return d
 
